@@ -101,6 +101,11 @@ struct GenCfg {
   int locale = LOC_C;
   bool probes = false;            // purity
   bool no_oob_crystal_Z = false;  // quarantine helper
+  int nfocus = 0;                 // >0: most query ops of the history come from these few entry points ...
+  int focus_q[3] = {0, 0, 0};
+  int focus_macro = 0;            // ... and half of their macro arguments (shell/line/trans/auger) take this value
+  bool focus_macro_set = false;
+  std::vector<std::string> focus_strings;   // ... and most of their string arguments come from this per-run list
 };
 struct QueryDef { const char* name; void* fn; char ret; const char* shape; int shape_id; const char* cls[14]; };
 extern const QueryDef g_queries[];
@@ -109,6 +114,7 @@ const QueryDef* query_find(const char* name);
 
 Op gen_query_op(Rng& r, int id);
 Op gen_query_op_for(Rng& r, int id, int query_index);
+void set_focus(Rng& r, GenCfg& cfg);
 Op gen_self_contained_op(Rng& r, int id, bool crystal_catalogue);   // probe-able op (no handles in or out)
 std::string gen_formula(Rng& r, int depth);
 std::string gen_compound_arg(Rng& r, bool* is_null);
